@@ -242,7 +242,7 @@ func (sr *srcRenderer) simple(s any) string {
 	case "passign":
 		return fmt.Sprintf("a = r.P(%d, a)", num(m["id"]))
 	case "panic":
-		return `panic("boom")`
+		return `panic(r.Boom())`
 	case "yield":
 		return sr.yield(sr.vexpr(m["v"]))
 	case "yfrom":
